@@ -74,7 +74,7 @@ def gen(tier, rng):
                                             log=("src", "dst", "hooks", "imgs"), chk=("pipeline", "ret_ok")))
     # alpha-aware down-scales of a crop deep inside the source: the kernel reaches premultiplied pixels far outside the box
     for pt in ("U8x2", "U8x4", "U16x2", "U16x4", "F32x2", "F32x4"):
-        for (sw, sh, dw, dh, box) in ((22, 18, 2, 2, (7, 5, 8, 8)), (30, 6, 3, 2, (10, 2, 9, 2))):
+        for (sw, sh, dw, dh, box) in ((22, 18, 2, 2, (7, 5, 8, 8)), (30, 6, 3, 2, (10, 2, 9, 2)), (10, 14, 7, 9, (3, 5, 4, 4))):
             n += 1
             if tier == "quick" and rz.pick(n, 319, [0, 1]):
                 continue
